@@ -73,13 +73,11 @@ func (this *minerRefundExecutor) Execute(transaction *types.Transaction, header 
 	this.logger.Infof(msg)
 	refundInfos := types.GetRefundInfo(context)
 	refundInfo, ok := refundInfos[refundHeight]
-	if ok {
-		refundInfo.AddRefundInfo(addr, money)
-	} else {
+	if !ok {
 		refundInfo = types.RefundInfoList{}
-		refundInfo.AddRefundInfo(addr, money)
-		refundInfos[refundHeight] = refundInfo
 	}
+	refundInfo.AddRefundInfo(addr, money)
+	refundInfos[refundHeight] = refundInfo
 
 	return true, msg
 }
